@@ -116,7 +116,7 @@ def run(tier, seed, replay=None):
                        "programs whose search exceeds the per-program budget are counted, not judged"]
     vlib.proof_part(rep, PROP, thorough_modules=["OratioProofs.Properties.C03"])
     rng = random.Random(seed)
-    n = 1500 if tier == "quick" else 15000
+    n = 1500 if tier == "quick" else 6000       # (4% of the planning programs run into the per-program budget: 5 s each)
     progs = []
     for i in range(n):
         k = i % 10
